@@ -114,6 +114,7 @@ func (n *SvsNode) onSyncInt(event *schema.Event) any {
 	remoteSv, err := stlv.ParseStateVector(enc.NewWireReader(event.Content), true)
 	if err != nil {
 		logger.Error("Unable to parse state vector. Drop.")
+		return true
 	}
 
 	// If append() is called on localSv slice, a lock is necessary
